@@ -212,7 +212,7 @@ def deep(sk, *xs):
     tree, kind = sk["tree"], sk["kind"]
     S = sk["S"]
     f, pos, _ = build_tree(tree, xs)
-    t = Tensor.fromFiber(["M", "K"], f, shape=[S, S])
+    t = Tensor.fromFiber(["M", "K"], f, shape=[sk.get("SM", S), S])      # SM: the upper rank has a smaller extent than the rank being split
     subs = [(c, list(p.coords), [pv(x) for x in p.payloads], p.getActive()) for c, p in zip(t.getRoot().coords, t.getRoot().payloads)]
     if kind == "uniform":
         r = t.splitUniform(sk["step"], depth=1)
@@ -325,4 +325,10 @@ def obligations(tier):
             ob = Ob("deep/%s/%s%s" % (str(tree).replace(" ", ""), kind, "".join(str(v) for v in extra.values()).replace(" ", "")), "deep", sk, ps, pre)
             ob.tags["alldefault_sub"] = alldefault_sub_expr(tree, ps)
             obs.append(ob)
+            if kind == "uniform" and tree in ([2, 1], [1, 1]):
+                sk2 = dict(sk, SM=2)
+                ob2 = Ob("deep/%s/%s%s/upper-extent2" % (str(tree).replace(" ", ""), kind, "".join(str(v) for v in extra.values()).replace(" ", "")), "deep", sk2, ps,
+                         pre + bound_pre(cn[:len(tree)], 0, 2))
+                ob2.tags["alldefault_sub"] = alldefault_sub_expr(tree, ps)
+                obs.append(ob2)
     return obs
